@@ -259,3 +259,20 @@ LEVEL_TEXT["C18"] = {
     "note": "Sequential by nature; inputs are histories, not schedules.",
     "technique": "model-based property testing (operation histories vs reference model, differential against the unerased object)",
 }
+
+PROPS["C11"] = {
+    "targets": [rt("props/C11_bulk.cpp", 800, 70, 10000, 900)],
+    "rule": "case = scheduler config (1..16 workers, 8 policies, perturbation at the index-queue CAS windows) x shape type in {int, unsigned, "
+            "size_t, long} x n from boundary classes {0..3; k*W and k*W+-1 for k in 1,2,8,16; 2^k and 2^k+-1 up to 2^20; random <= 200000; "
+            "huge shapes around 2^31 and 2^32 (rare)} x predecessor in {transfer_just on the pool, schedule|then, continues_on after another "
+            "task, just (generic sequential bulk)} with 0..2 values x 0..3 throwing indices (incl. the last index) x worker hint; "
+            "non-trivial iff n > 8*workers on the pool path or a throwing index; distinct by hash",
+    "floor": {"quick": 100, "thorough": 1000},
+    "assumptions": ["for huge shapes a per-index bitmap is infeasible: call count and index sum are compared with closed forms (necessary conditions)",
+                    "the does-not-return clause is judged by a no-progress detector (zero callbacks and no signal for 10 s), used for the huge-shape class only"],
+}
+LEVEL_TEXT["C11"] = {
+    "text": "Generated (shape type, n, worker count, predecessor, throwing set) cases run the real pool bulk and the generic bulk; oracles: per-index test-and-set bitmap (no index twice, none out of range), call count == n, predecessor values unchanged in every call and at the receiver, exactly one receiver signal and no call of f still running at that moment, with throwing indices exactly one error whose id was really thrown and no value, n == 0 completes with zero calls.",
+    "note": "Chunk stealing interleavings are sampled (perturbation at the index queue's load/CAS windows, CPU restriction).",
+    "technique": "property-based testing (boundary-biased shapes, bitmap/ledger oracles, fork-per-case real runtime)",
+}
